@@ -1,0 +1,27 @@
+//go:build verif
+
+package announce
+
+// VerifLRU exposes the announce duplicate cache (stringLRU) to the
+// verification harness so that it can be driven at small capacities. It is
+// only compiled with the "verif" build tag.
+type VerifLRU struct {
+	l *stringLRU
+}
+
+// NewVerifLRU creates a duplicate cache with the given capacity.
+func NewVerifLRU(maxEntries int) *VerifLRU {
+	return &VerifLRU{l: newStringLRU(maxEntries)}
+}
+
+// Update is stringLRU.update.
+func (v *VerifLRU) Update(s string) bool { return v.l.update(s) }
+
+// Remove is stringLRU.remove.
+func (v *VerifLRU) Remove(s string) bool { return v.l.remove(s) }
+
+// Len is stringLRU.len.
+func (v *VerifLRU) Len() int { return v.l.len() }
+
+// VerifAnnounceCacheSize is the capacity of a Receiver's duplicate cache.
+const VerifAnnounceCacheSize = announceCacheSize
